@@ -1,12 +1,14 @@
 use crate::core::Prop;
 
+pub mod c04;
+pub mod c06;
 pub mod c07;
 pub mod c08;
 pub mod c09;
 pub mod c20;
 
 pub fn all() -> Vec<&'static dyn Prop> {
-    vec![&c07::C07, &c08::C08, &c09::C09, &c20::C20]
+    vec![&c04::C04, &c06::C06, &c07::C07, &c08::C08, &c09::C09, &c20::C20]
 }
 
 pub fn lookup(id: &str) -> Option<&'static dyn Prop> {
